@@ -108,6 +108,25 @@ CLAIMED = {
             "and threads reusing idents. Trace validation judges the window the property states (not one matching "
             "algorithm). Known finding: captures in nested same-name invocations carry the inner result (listed).",
             TRUSTED),
+    'C12': (['ConfigSync'],
+            "TLA+ spec ConfigSync.tla (poll request/answer, update tasks on a 2-worker pool, registrations; invariants "
+            "Converged, LastGoodInForce, HashHonest, action properties NeverOlder, NoChangeIsNoop) model-checked with TLC; "
+            "its behaviours (tlc -simulate) replayed on the real Deep/TracepointConfigService/LongPoll/TriggerHandler with "
+            "a manual pool and a fake channel, projected state compared after every action",
+            "Exhaustive within bounds (<=3 service versions, <=2 registrations, <=4 polls with update/no-change/error/"
+            "malformed answers, every interleaving of 2 workers taking and applying tasks); thousands of simulated "
+            "behaviours are stepped through the real objects with equality of hash, polled config, custom list, queued "
+            "tasks and installed triggers after each step, and the request hash compared; the real timer is run with "
+            "failing polls.",
+            TRUSTED + "; the service answers UPDATE only when the hash differs"),
+    'C13': (['ConfigSync'],
+            "TLA+ spec ConfigSync.tla (Register/Unregister with handles; invariants RemovesExactlyIt, HandlesUnique, "
+            "AlongsideService) model-checked with TLC incl. the HandleIsLocation deviation; register/unregister-rich "
+            "behaviours replayed on the real public API with state comparison, plus a behavioural run",
+            "All register/unregister histories with <=3 registrations over 2 locations interleaved with a service update "
+            "are model-checked; simulated histories with up to 4 registrations are replayed on Deep.register_tracepoint / "
+            "TracepointRegistration.unregister and the installed set is compared after every step.",
+            TRUSTED),
 }
 
 NOT_YET = {}
